@@ -152,3 +152,31 @@ def option_configs(name, ds, tier='quick'):
                 o['n_basis'] = 4 * d
             out.append(('basis=%s' % b, o))
     return out
+
+
+def family(tier, seed=0):
+    """The fitted-model family F of DESIGN.md section 4: (name, label, overrides, dataset name)."""
+    out = []
+    dsn = data.names(tier, small=True)
+    for n in dsn:
+        ds = data.dataset(n, seed) if n == 'R' else data.dataset(n)
+        d = ds.d
+        for name in ALL:
+            cfgs = []
+            if name in ('LMNN', 'NCA', 'MLKR'):
+                for lab, o in option_configs(name, ds, tier):
+                    if o['n_components'] is None or (o['n_components'] == 1 and lab.startswith(('init=auto', 'init=lda'))):
+                        cfgs.append((lab, o))
+            elif name == 'LFDA':
+                for emb in ('weighted', 'orthonormalized', 'plain'):
+                    cfgs.append(('embedding_type=%s' % emb, {'embedding_type': emb}))
+                cfgs.append(('n_components=1', {'n_components': 1}))
+            elif name in ('RCA', 'RCA_Supervised'):
+                cfgs = [('n_components=None', {}), ('n_components=1', {'n_components': 1})]
+            else:
+                cfgs = option_configs(name, ds, tier)
+            if name in ('MMC', 'MMC_Supervised'):
+                cfgs = cfgs + [('diagonal=True', {'diagonal': True})]
+            for lab, o in cfgs:
+                out.append((name, lab, o, n))
+    return out
